@@ -1,7 +1,8 @@
 #!/usr/bin/env bash
 # seeded_regress.sh [pattern] — re-evaluates every confirmed seeded change under /verif/seeded against the quick check of
 # its own property, in the scratch worktree (never in /repo). Prints one line per change; exit 1 if a change that is
-# expected to be caught is missed. r2-C04-B is the documented non-detection.
+# expected to be caught is missed. r2-C04-B is the documented non-detection; r5-C04-A became behaviour-neutral when the
+# defect it relied on was fixed (6af316e).
 set -u
 cd "$(dirname "$0")/.."
 PAT="${1:-}"
@@ -11,11 +12,16 @@ for d in seeded/*/; do
   [ -n "$PAT" ] && [[ "$id" != *$PAT* ]] && continue
   [ -f "$d/patch.diff" ] || continue
   prop=$(python3 -c "import json;print(json.load(open('$d/meta.json'))['property'])")
-  out=$(tools/seeded_eval_scratch.sh "$PWD/$d/patch.diff" "$prop" 2>&1 | grep "^\[$prop\]" | cut -c1-260)
+  patch="$PWD/$d/patch.diff"
+  # a patch whose file was later touched by a fix: commit in /repo is kept rebased next to the original
+  for r in "$PWD/$d"/patch.rebased-*.diff; do [ -f "$r" ] && patch="$r"; done
+  out=$(tools/seeded_eval_scratch.sh "$patch" "$prop" 2>&1 | grep -E "^\[$prop\]|patch does not apply|BUILD FAILED" | cut -c1-260)
   rc=$(echo "$out" | sed -E 's/.*exit=([0-9]+).*/\1/')
   status=CAUGHT
   if [ "$rc" != "1" ]; then
-    if [ "$id" = "r2-C04-B" ]; then status="not-caught(documented)"; else status="MISSED(rc=$rc)"; miss=1; fi
+    if [ "$id" = "r2-C04-B" ]; then status="not-caught(documented)";
+    elif [ "$id" = "r5-C04-A" ]; then status="neutral-since-fix-6af316e(documented)";
+    else status="MISSED(rc=$rc)"; miss=1; fi
   fi
   echo "$id $prop $status $(echo "$out" | sed -E 's/.*(invariant=[^ ]+ signature=[^ ]+).*/\1/' | cut -c1-150)"
 done
